@@ -365,54 +365,57 @@ Definition add_template (wb : workbook) (st : istate) (name : str) (defs : list 
 
 Definition fdef_name (d : fdef) : str := match fd_new d with [] => fd_sheet d | n => n end.
 
-(* one row of a content index sheet; nested indexes recurse (fuel = nesting depth) *)
+(* one row of a content index sheet; [nested] processes a nested index sheet *)
+Definition index_step (nested : list ixrow -> istate -> result cls istate)
+           (wb : workbook) (dm : option (list str)) (st : istate) (r : ixrow) : result cls istate :=
+  if x_draft r then Ok st else
+  if negb (Nat.eqb (length (x_sheets r)) 1) && negb (match x_type r with IDataSheet => true | _ => false end)
+  then crit ESheetNames else
+  let first := hd [] (x_sheets r) in
+  match x_type r with
+  | IContentIndex =>
+    do sh <- sheet_or_die wb first;
+    match sh with SIndex rows' => nested rows' st | _ => Err EOutOfScope end
+  | IDataSheet =>
+    match x_sheets r with
+    | [] => crit ESheetNames
+    | _ => process_data_sheet wb dm st r
+    end
+  | ITemplateDef => add_template wb st first (x_argdefs r) true
+  | ICreateFlow =>
+    Ok (mkIS (is_templates st) (is_data st)
+             (is_flows st ++ [mkFD first (x_new r) (x_dsheet r) (x_drow r) (x_targs r) (x_argdefs r)])
+             (is_camps st) (is_trigs st) (is_models st))
+  | ICampaign =>
+    do sh <- sheet_or_die wb first;
+    match sh with
+    | SCampaign rows' =>
+      let name := match x_new r with [] => first | n => n end in
+      Ok (mkIS (is_templates st) (is_data st) (is_flows st) (aset (is_camps st) name (x_group r, rows'))
+               (is_trigs st) (is_models st))
+    | _ => Err EOutOfScope
+    end
+  | ITriggers =>
+    do sh <- sheet_or_die wb first;
+    match sh with
+    | STriggers rows' =>
+      Ok (mkIS (is_templates st) (is_data st) (is_flows st) (is_camps st)
+               (aset (is_trigs st) first rows') (is_models st))
+    | _ => Err EOutOfScope
+    end
+  | IIgnore =>
+    Ok (mkIS (is_templates st) (is_data st)
+             (filter (fun d => negb (str_eqb (fdef_name d) first)) (is_flows st))
+             (adel (is_camps st) first) (adel (is_trigs st) first) (is_models st))
+  | IOther => Ok st                             (* LOGGER.error, the index goes on *)
+  end.
+
+(* the rows of an index sheet in order; nested indexes recurse (fuel = nesting depth) *)
 Fixpoint process_index (fuel : nat) (wb : workbook) (dm : option (list str)) (rows : list ixrow) (st : istate)
   : result cls istate :=
   match fuel with
   | O => Err EOutOfFuel
-  | S f =>
-    foldM (fun st r =>
-      if x_draft r then Ok st else
-      if negb (Nat.eqb (length (x_sheets r)) 1) && negb (match x_type r with IDataSheet => true | _ => false end)
-      then crit ESheetNames else
-      let first := hd [] (x_sheets r) in
-      match x_type r with
-      | IContentIndex =>
-        do sh <- sheet_or_die wb first;
-        match sh with SIndex rows' => process_index f wb dm rows' st | _ => Err EOutOfScope end
-      | IDataSheet =>
-        match x_sheets r with
-        | [] => crit ESheetNames
-        | _ => process_data_sheet wb dm st r
-        end
-      | ITemplateDef => add_template wb st first (x_argdefs r) true
-      | ICreateFlow =>
-        Ok (mkIS (is_templates st) (is_data st)
-                 (is_flows st ++ [mkFD first (x_new r) (x_dsheet r) (x_drow r) (x_targs r) (x_argdefs r)])
-                 (is_camps st) (is_trigs st) (is_models st))
-      | ICampaign =>
-        do sh <- sheet_or_die wb first;
-        match sh with
-        | SCampaign rows' =>
-          let name := match x_new r with [] => first | n => n end in
-          Ok (mkIS (is_templates st) (is_data st) (is_flows st) (aset (is_camps st) name (x_group r, rows'))
-                   (is_trigs st) (is_models st))
-        | _ => Err EOutOfScope
-        end
-      | ITriggers =>
-        do sh <- sheet_or_die wb first;
-        match sh with
-        | STriggers rows' =>
-          Ok (mkIS (is_templates st) (is_data st) (is_flows st) (is_camps st)
-                   (aset (is_trigs st) first rows') (is_models st))
-        | _ => Err EOutOfScope
-        end
-      | IIgnore =>
-        Ok (mkIS (is_templates st) (is_data st)
-                 (filter (fun d => negb (str_eqb (fdef_name d) first)) (is_flows st))
-                 (adel (is_camps st) first) (adel (is_trigs st) first) (is_models st))
-      | IOther => Ok st                             (* LOGGER.error, the index goes on *)
-      end) rows st
+  | S f => foldM (index_step (process_index f wb dm) wb dm) rows st
   end.
 
 (* _populate_missing_templates *)
@@ -495,18 +498,21 @@ Definition one_flow (st : istate) (d : fdef) (drow : str) (cs : cstate) : result
   bind (run_flow E inj visit (insert_ctx st) fuel (fd_sheet d) c (cs_uu cs)) (fun ur =>
   Ok (mkCS (fst ur) (aset (cs_flows cs) (flow_name d drow) (cs_next cs, snd ur)) (S (cs_next cs))))).
 
+(* one entry of flow_definition_rows *)
+Definition flow_def_step (st : istate) (cs : cstate) (d : fdef) : result E cstate :=
+  match fd_dsheet d, fd_drow d with
+  | (_ :: _), [] =>
+    match aget (is_data st) (fd_dsheet d) with
+    | None => liftE (raise EKeyData)
+    | Some ds => foldM (fun cs' idrow => one_flow st d (fst idrow) cs') (ds_rows ds) cs
+    end
+  | [], (_ :: _) => liftE (crit ERowIdNoSheet)
+  | _, _ => one_flow st d (fd_drow d) cs
+  end.
+
 (* parse_all_flows, up to add_flow *)
 Definition flows_phase (st : istate) : result E cstate :=
-  foldM (fun cs d =>
-           match fd_dsheet d, fd_drow d with
-           | (_ :: _), [] =>
-             match aget (is_data st) (fd_dsheet d) with
-             | None => liftE (raise EKeyData)
-             | Some ds => foldM (fun cs' idrow => one_flow st d (fst idrow) cs') (ds_rows ds) cs
-             end
-           | [], (_ :: _) => liftE (crit ERowIdNoSheet)
-           | _, _ => one_flow st d (fd_drow d) cs
-           end) (is_flows st) (mkCS uu0 [] 0).
+  foldM (flow_def_step st) (is_flows st) (mkCS uu0 [] 0).
 
 End Pipeline.
 
@@ -531,22 +537,27 @@ Definition triggers_ok (rows : list trow) : result cls unit :=
 Definition has_flow (uu : uuids) (name : str) : bool :=
   match uget (uu_flows uu) name with Some _ => true | None => false end.
 
+(* Trigger.record_global_uuids(uuid_dict, require_existing=True) *)
+Definition trigger_record (u0 : uuids) (r : trow) : result cls uuids :=
+  if has_flow u0 (tr_flow r) then
+    do u1 <- record u0 (RFlow (tr_flow r) UNone);
+    do u2 <- foldM (fun u' g => record u' (RGroup g UNone)) (tr_groups r) u1;
+    foldM (fun u' g => record u' (RGroup g UNone)) (tr_excl r) u2
+  else raise ETriggerFlow.
+
+(* Campaign.record_global_uuids *)
+Definition campaign_record (u : uuids) (camp : str * (str * list crow)) : result cls uuids :=
+  do u' <- foldM (fun u0 r => match cr_flow r with
+                              | [] => Ok u0
+                              | n => record u0 (RFlow n UNone)
+                              end) (snd (snd camp)) u;
+  record u' (RGroup (fst (snd camp)) UNone).
+
 (* RapidProContainer.update_global_uuids, as far as it can raise *)
 Definition render_uuids (st : istate) (cs : cstate) (uu : uuids) : result cls uuids :=
   do uu1 <- foldM (fun u nf => foldM record (snd (snd nf)) u) (cs_flows cs) uu;
-  do uu2 <- foldM (fun u camp =>
-                     do u' <- foldM (fun u0 r => match cr_flow r with
-                                                 | [] => Ok u0
-                                                 | n => record u0 (RFlow n UNone)
-                                                 end) (snd (snd camp)) u;
-                     record u' (RGroup (fst (snd camp)) UNone)) (is_camps st) uu1;
-  foldM (fun u ts =>
-           foldM (fun u0 r =>
-                    if has_flow u0 (tr_flow r) then
-                      do u1 <- record u0 (RFlow (tr_flow r) UNone);
-                      do u2 <- foldM (fun u' g => record u' (RGroup g UNone)) (tr_groups r) u1;
-                      foldM (fun u' g => record u' (RGroup g UNone)) (tr_excl r) u2
-                    else raise ETriggerFlow) (snd ts) u) (is_trigs st) uu2.
+  do uu2 <- foldM campaign_record (is_camps st) uu1;
+  foldM (fun u ts => foldM trigger_record (snd ts) u) (is_trigs st) uu2.
 
 (* parse_all().render() after the flows *)
 Definition finish (st : istate) (cs : cstate) : result cls doc :=
